@@ -763,16 +763,29 @@ class Interp:
                 value = self._taken_branch(value, st, fr)
             self._constant_flag(st, target.id, value)
             self._display_length(st, target.id, value)
+            member = self._enum_member(value, fr.frame.fn)
+            if member is not None:
+                st.facts[('enumval', target.id)] = member
             if isinstance(value, (ast.Call, ast.Await)):
                 # `ok = self._helper()` where the helper, run in place, returned a constant
                 returned = self._helper_returned(value, st)
                 self._constant_flag(st, target.id, returned)
                 self._returned_facts(st, target.id, returned)
+                member = None
+                for made in reversed(st.events[-4:]):
+                    if made.kind == 'leave' and made.node is value and \
+                            made.data.get('callee') is not None:
+                        member = self._enum_member(returned, made.data['callee'].fn)
+                if member is not None:
+                    # the member of an enumeration the helper answered with
+                    st.facts[('enumval', target.id)] = member
                 if isinstance(returned, ast.Call) and st.events:
                     # ... or a record: what is known about each of its fields
                     from . import rules
-                    made_by = st.events[-1].data.get('callee') \
-                        if st.events[-1].kind == 'leave' else None
+                    made_by = None
+                    for made in reversed(st.events[-4:]):
+                        if made.kind == 'leave' and made.node is value:
+                            made_by = made.data.get('callee')
                     display = rules._record_display(returned, made_by.fn) \
                         if made_by is not None else None
                     if display is not None:
@@ -857,7 +870,13 @@ class Interp:
         """the return expression of the helper that was just run in place for ``value``"""
         if not isinstance(value, (ast.Call, ast.Await)) or not st.events:
             return None
-        last = st.events[-1]
+        at = len(st.events) - 1
+        while at > 0 and at > len(st.events) - 4 and (
+                (st.events[at].kind == 'store' and st.events[at].data.get('value') is value)
+                or (st.events[at].kind in ('test', 'retval', 'assert')
+                    and st.events[at].node is value and st.events[at].data.get('inlined'))):
+            at -= 1  # the store of the result / the truth of it, recorded after the helper
+        last = st.events[at]
         if last.kind == 'leave' and last.data.get('how') == 'helper' and \
                 last.node is value and last.data.get('outcome') == 'return':
             return last.data.get('ret')
@@ -1479,9 +1498,38 @@ class Interp:
             for cls in SIGNALS + (USER_EXC,):
                 if self.summary(callee, 'exc:' + cls).ret_truth in ('may', 'always'):
                     swallow.add(cls)
+        # `stack.callback(f, a, b)`: f(a, b) runs when the stack is left, whatever is
+        # pending (last registered first), if the registration was reached on the path
+        stack_name = item.optional_vars.id if isinstance(item.optional_vars, ast.Name) \
+            else None
+        callbacks = [node for node in ast.walk(stmt) if isinstance(node, ast.Call)
+                     and isinstance(node.func, ast.Attribute) and node.func.attr == 'callback'
+                     and isinstance(node.func.value, ast.Name)
+                     and node.func.value.id == stack_name and node.args
+                     and not any(isinstance(a, ast.Starred) for a in node.args)]
         self._emit(st, 'exitstack-enter', stmt, fr, entered=entered, managers=managers)
+        entry = len(st.events)
         results = []
-        for out, s in body(st):
+        outcomes = body(st)
+        if callbacks:
+            after = []
+            for out, s in outcomes:
+                current = [(out, s)]
+                for registration in reversed(callbacks):
+                    nxt = []
+                    for out2, s2 in current:
+                        if not any(e.node is registration and e.kind == 'call'
+                                   for e in s2.events[entry:]):
+                            nxt.append((out2, s2))
+                            continue
+                        for out3, s3 in self.exec_block(
+                                [self._callback_stmt(registration)], s2, fr):
+                            # an exception of the callback replaces what was pending
+                            nxt.append((out3 if out3[0] == 'raise' else out2, s3))
+                    current = nxt
+                after.extend(current)
+            outcomes = after
+        for out, s in outcomes:
             self._emit(s, 'exitstack-exit', stmt, fr, entered=entered, managers=managers, outcome=out[0])
             if out[0] == 'raise' and any(self.p.is_subclass(out[1].cls, c) for c in swallow):
                 s2 = s.fork()
@@ -1489,6 +1537,28 @@ class Interp:
                 results.append((NORMAL, s2))
             results.append((out, s))
         return results
+
+    _CALLBACKS = {}
+
+    def _callback_stmt(self, registration: ast.Call):
+        """the statement ``stack.callback(f, a, k=v)`` stands for at exit: ``f(a, k=v)``;
+        ``setattr(obj, 'name', v)`` as the store ``obj.name = v`` it is"""
+        found = self._CALLBACKS.get(id(registration))
+        if found is not None and found[0] is registration:
+            return found[1]
+        func, args = registration.args[0], list(registration.args[1:])
+        if isinstance(func, ast.Name) and func.id == 'setattr' and len(args) == 3 and \
+                not registration.keywords and isinstance(args[1], ast.Constant) and \
+                isinstance(args[1].value, str) and args[1].value.isidentifier():
+            stmt = ast.Assign(targets=[ast.Attribute(value=args[0], attr=args[1].value,
+                                                     ctx=ast.Store())], value=args[2])
+        else:
+            stmt = ast.Expr(value=ast.Call(func=func, args=args,
+                                           keywords=list(registration.keywords)))
+        ast.copy_location(stmt, registration)
+        ast.fix_missing_locations(stmt)
+        self._CALLBACKS[id(registration)] = (registration, stmt)
+        return stmt
 
     def _ctx_swallows(self, callee: Callee, summ: Summary) -> set:
         """exception classes for which the generator may end normally after the hole"""
@@ -2782,6 +2852,24 @@ class Interp:
         if named is not None:
             # `if self._is_ready():` with `def _is_ready(self): return a >= b`
             return self.eval_test(named, st, fr, raised, record)
+        enum_truth = self._enum_test(expr, st, fr)
+        if enum_truth is not None:
+            results = []
+            enum_key, enum_positive = self.atom_key(expr, fr)
+            for s in self.ev(expr, [st], fr, raised):
+                self._emit(s, record, expr, fr, key=enum_key,
+                           value=enum_truth, known=True, positive=enum_positive,
+                           why='member of an enumeration held by a local')
+                results.append((enum_truth, s))
+            return results
+        if self._always_true_instance(expr, fr):
+            # a fresh record (typing.NamedTuple with fields) is a non-empty tuple
+            results = []
+            for s in self.ev(expr, [st], fr, raised):
+                self._emit(s, record, expr, fr, key=None, value=True, known=True,
+                           positive=True, why='non-empty record')
+                results.append((True, s))
+            return results
         quantified = self._quantifier_test(expr, st, fr, raised, record)
         if quantified is not None:
             return quantified
@@ -2834,6 +2922,60 @@ class Interp:
             results.append((True, s))
             results.append((False, other))
         return results
+
+    def _enum_member(self, expr, fn):
+        """(class, member) when ``expr`` names a member of an enumeration of the package
+        (``Colour.RED``), as written in function ``fn``"""
+        if not isinstance(expr, ast.Attribute) or fn is None or \
+                not isinstance(expr.value, (ast.Name, ast.Attribute)):
+            return None
+        try:
+            binding = self.p.resolve_dotted(fn.module, expr.value)
+        except Exception:
+            return None
+        if not binding or binding[0] != 'class':
+            return None
+        info = self.p.classes.get(binding[1])
+        if info is None or expr.attr not in info.attrs or not any(
+                entry in ('ext:enum.Enum', 'ext:enum.IntEnum', 'ext:enum.Flag',
+                          'ext:enum.IntFlag') for entry in info.mro):
+            return None
+        return binding[1], expr.attr
+
+    def _enum_test(self, expr, st: St, fr: DynFrame):
+        """``x is Colour.RED`` / ``x == Colour.RED`` (or the negated forms) for a local
+        known to hold one member of that enumeration: the truth of the test, else None"""
+        if not (isinstance(expr, ast.Compare) and len(expr.ops) == 1 and isinstance(
+                expr.ops[0], (ast.Is, ast.IsNot, ast.Eq, ast.NotEq))):
+            return None
+        left, right = expr.left, expr.comparators[0]
+        for local, other in ((left, right), (right, left)):
+            if not isinstance(local, ast.Name):
+                continue
+            held = st.facts.get(('enumval', local.id))
+            asked = self._enum_member(other, fr.frame.fn)
+            if held is None or asked is None or held[0] != asked[0]:
+                continue
+            same = held == asked
+            return same if isinstance(expr.ops[0], (ast.Is, ast.Eq)) else not same
+        return None
+
+    def _always_true_instance(self, expr, fr: DynFrame) -> bool:
+        """``Record(...)``: the construction of a typing.NamedTuple record of the package
+        that has at least one field and defines neither ``__bool__`` nor ``__len__``"""
+        if not isinstance(expr, ast.Call) or not isinstance(expr.func,
+                                                            (ast.Name, ast.Attribute)):
+            return False
+        from . import rules
+        try:
+            binding = self.p.resolve_dotted(fr.frame.fn.module, expr.func)
+        except Exception:
+            return False
+        if not binding or binding[0] != 'class':
+            return False
+        fields = rules.record_fields(self.p, binding[1])
+        return bool(fields) and self.p.find_method(binding[1], '__bool__') is None and \
+            self.p.find_method(binding[1], '__len__') is None
 
     def _implied(self, key, positive, st: St) -> Optional[bool]:
         """truth value implied by other facts (only a few sound rules)"""
